@@ -78,3 +78,49 @@ var (
 //@ forall-funcs ^[A-Z][A-Za-z]*$ [C01]
 //@   requires? m != nil
 //@   ensures? [error-located] result != nil && result.Token.Type == m.Token.Type && result.Token.Line == m.Token.Line && result.Token.Position == m.Token.Position && result.Token.File == m.Token.File
+
+// ---- C02: operator precedence ------------------------------------------------------------------------------
+// The table is the one the property states: `||` loosest, then `&&`, then `~ !~`, `== !=`,
+// `< > <= >=`, then string concatenation (explicit `+` or juxtaposition: a STRING, long string, IDENT or
+// `if(` that follows an operand), with prefix operators binding tighter than all of them.
+// @ lemma lemma_precedence_table [C02]
+// @   ensures [or-is-loosest] LOWEST < or && or < and
+// @   ensures [and-below-regex] and < re && re == nre
+// @   ensures [regex-below-equality] re < eq && eq == ne
+// @   ensures [equality-below-relational] eq < lt && lt == gt && lt == le && lt == ge
+// @   ensures [relational-below-concatenation] lt < plus && plus == str && plus == lstr && plus == ident && plus == ifx
+// @   ensures [concatenation-below-prefix] plus < PREFIX
+// @   ensures [other-tokens-do-not-bind] semi == 0 && rparen == 0 && comma == 0
+func lemma_precedence_table() (or, and, re, nre, eq, ne, lt, gt, le, ge, plus, str, lstr, ident, ifx, semi, rparen, comma int) {
+	or, and = precedences[token.OR], precedences[token.AND]
+	re, nre = precedences[token.REGEX_MATCH], precedences[token.NOT_REGEX_MATCH]
+	eq, ne = precedences[token.EQUAL], precedences[token.NOT_EQUAL]
+	lt, gt = precedences[token.LESS_THAN], precedences[token.GREATER_THAN]
+	le, ge = precedences[token.LESS_THAN_EQUAL], precedences[token.GREATER_THAN_EQUAL]
+	plus, str, lstr = precedences[token.PLUS], precedences[token.STRING], precedences[token.OPEN_LONG_STRING]
+	ident, ifx = precedences[token.IDENT], precedences[token.IF]
+	semi, rparen, comma = precedences[token.SEMICOLON], precedences[token.RIGHT_PAREN], precedences[token.COMMA]
+	return
+}
+
+// The precedence of the token at hand is the table entry (LOWEST for tokens that are not operators) ...
+//@ func (*Parser).curPrecedence [C02]
+//@   requires p != nil && p.curToken != nil
+//@   pure
+//@   ensures [table-lookup C02] result == (has(precedences, p.curToken.Token.Type) ? precedences[p.curToken.Token.Type] : LOWEST)
+//@ func (*Parser).peekPrecedence [C02]
+//@   requires p != nil && p.peekToken != nil
+//@   pure
+//@   ensures [table-lookup C02] result == (has(precedences, p.peekToken.Token.Type) ? precedences[p.peekToken.Token.Type] : LOWEST)
+
+// ... and every recursive descent passes the binding power the grammar prescribes: the operator's own
+// precedence for the right operand of a binary operator (left associativity), PREFIX for the operand of
+// `!` and `-`, LOWEST inside parentheses (parentheses override).
+//@ func (*Parser).ParseInfixExpression [C02]
+//@   callassert [right-operand-binds-at-the-operator C02] ParseExpression: arg1 == old(p.curPrecedence())
+//@ func (*Parser).ParseInfixStringConcatExpression [C02]
+//@   callassert [right-operand-binds-at-the-operator C02] ParseExpression: arg1 == old(p.curPrecedence())
+//@ func (*Parser).ParsePrefixExpression [C02]
+//@   callassert [prefix-binds-tightest C02] ParseExpression: arg1 == PREFIX
+//@ func (*Parser).ParseGroupedExpression [C02]
+//@   callassert [parentheses-override C02] ParseExpression: arg1 == LOWEST
